@@ -316,9 +316,8 @@ def _closure(fn):
     return deps, params
 
 
-def rule_D3g(ctx):
-    ix = ctx.index
-    r = Rule('D3g', 'every memo container (module level, default argument, class or instance attribute with "cache" in its name) is keyed by every parameter the memoised value is computed from', floor=6)
+def _memo_sites(ix):
+    """every store `container[key] = value` into a memo container (module level, default argument, class or instance attribute with "cache" in its name)"""
     for m in _compiler_modules(ix, extra=()):
         for qn, owner, fn in ix.functions_of(m):
             if not any(isinstance(n, ast.Assign) and any(isinstance(t, ast.Subscript) for t in n.targets) for n in walk_no_nested(fn)):
@@ -327,8 +326,9 @@ def rule_D3g(ctx):
                 continue
             deps, params = _closure(fn)
             dflt_caches = set()
-            pos = fn.args.args
-            for a, d in zip(pos[len(pos) - len(fn.args.defaults):], fn.args.defaults):
+            pos = fn.args.args + fn.args.kwonlyargs
+            dflts = [None] * (len(fn.args.args) - len(fn.args.defaults)) + list(fn.args.defaults) + list(fn.args.kw_defaults)
+            for a, d in zip(pos, dflts):
                 if isinstance(d, ast.Dict) and not d.keys:
                     dflt_caches.add(a.arg)
             for n in walk_no_nested(fn):
@@ -347,44 +347,51 @@ def rule_D3g(ctx):
                         implicit = {base.value.id}
                     if cname is None:
                         continue
-                    used = set()
-                    for x in ast.walk(n.value):
-                        if isinstance(x, ast.Name):
-                            used |= deps.get(x.id, set())
-                    knames = set()
-                    for x in ast.walk(t.slice):
-                        if isinstance(x, ast.Name):
-                            knames |= deps.get(x.id, set())
-                    key = '%s.%s:%s' % (m.short, qn, cname)
-                    relevant = (used & set(params)) - dflt_caches
-                    r.inst(key, sample='%s caches by (%s); value depends on parameters %s' % (key, node_src(t.slice, 40), sorted(relevant)))
-                    missing = relevant - knames - implicit
-                    # a mapping parameter used as a whole for the value but only through single entries for the key
-                    kexpr = t.slice
-                    if isinstance(kexpr, ast.Name):
-                        ds = [a.value for a in walk_no_nested(fn) if isinstance(a, ast.Assign) and any(isinstance(x, ast.Name) and x.id == kexpr.id for x in a.targets)]
-                        if len(ds) == 1:
-                            kexpr = ds[0]
-                    for p in sorted(relevant & knames):
-                        proj = set()
-                        whole = False
-                        for x in ast.walk(kexpr):
-                            if isinstance(x, ast.Call) and isinstance(x.func, ast.Attribute) and x.func.attr == 'get' and isinstance(x.func.value, ast.Name) and x.func.value.id == p:
-                                proj.add(id(x.func.value))
-                            if isinstance(x, ast.Subscript) and isinstance(x.value, ast.Name) and x.value.id == p and isinstance(x.slice, ast.Constant):
-                                proj.add(id(x.value))
-                        for x in ast.walk(kexpr):
-                            if isinstance(x, ast.Name) and x.id == p and id(x) not in proj:
-                                whole = True
-                        uses_whole = any(isinstance(x, ast.Name) and x.id == p and not _projected(n.value, x) for x in ast.walk(n.value))
-                        if proj and not whole and uses_whole:
-                            r.violate(key + ':partial:' + p, m.rel, n.lineno,
-                                      '%s memoises a value computed from the whole mapping %r in %s but the key (%s) only looks at single entries of it: two requests that differ in another entry share one memo slot'
-                                      % (qn, p, cname, node_src(kexpr, 50)))
-                    if missing:
-                        r.violate(key + ':' + ','.join(sorted(missing)), m.rel, n.lineno,
-                                  '%s memoises a value computed from parameter(s) %s in %s but the key (%s) does not depend on them: a later request that differs only there '
-                                  '(another module of the same process, another instantiation) gets the value computed for the first one' % (qn, sorted(missing), cname, node_src(t.slice, 50)))
+                    yield m, qn, fn, n, t, cname, implicit, deps, params, dflt_caches
+
+
+def rule_D3g(ctx):
+    ix = ctx.index
+    r = Rule('D3g', 'every memo container (module level, default argument, class or instance attribute with "cache" in its name) is keyed by every parameter the memoised value is computed from', floor=6)
+    for m, qn, fn, n, t, cname, implicit, deps, params, dflt_caches in _memo_sites(ix):
+        used = set()
+        for x in ast.walk(n.value):
+            if isinstance(x, ast.Name):
+                used |= deps.get(x.id, set())
+        knames = set()
+        for x in ast.walk(t.slice):
+            if isinstance(x, ast.Name):
+                knames |= deps.get(x.id, set())
+        key = '%s.%s:%s' % (m.short, qn, cname)
+        relevant = (used & set(params)) - dflt_caches
+        r.inst(key, sample='%s caches by (%s); value depends on parameters %s' % (key, node_src(t.slice, 40), sorted(relevant)))
+        missing = relevant - knames - implicit
+        # a mapping parameter used as a whole for the value but only through single entries for the key
+        kexpr = t.slice
+        if isinstance(kexpr, ast.Name):
+            ds = [a.value for a in walk_no_nested(fn) if isinstance(a, ast.Assign) and any(isinstance(x, ast.Name) and x.id == kexpr.id for x in a.targets)]
+            if len(ds) == 1:
+                kexpr = ds[0]
+        for p in sorted(relevant & knames):
+            proj = set()
+            whole = False
+            for x in ast.walk(kexpr):
+                if isinstance(x, ast.Call) and isinstance(x.func, ast.Attribute) and x.func.attr == 'get' and isinstance(x.func.value, ast.Name) and x.func.value.id == p:
+                    proj.add(id(x.func.value))
+                if isinstance(x, ast.Subscript) and isinstance(x.value, ast.Name) and x.value.id == p and isinstance(x.slice, ast.Constant):
+                    proj.add(id(x.value))
+            for x in ast.walk(kexpr):
+                if isinstance(x, ast.Name) and x.id == p and id(x) not in proj:
+                    whole = True
+            uses_whole = any(isinstance(x, ast.Name) and x.id == p and not _projected(n.value, x) for x in ast.walk(n.value))
+            if proj and not whole and uses_whole:
+                r.violate(key + ':partial:' + p, m.rel, n.lineno,
+                          '%s memoises a value computed from the whole mapping %r in %s but the key (%s) only looks at single entries of it: two requests that differ in another entry share one memo slot'
+                          % (qn, p, cname, node_src(kexpr, 50)))
+        if missing:
+            r.violate(key + ':' + ','.join(sorted(missing)), m.rel, n.lineno,
+                      '%s memoises a value computed from parameter(s) %s in %s but the key (%s) does not depend on them: a later request that differs only there '
+                      '(another module of the same process, another instantiation) gets the value computed for the first one' % (qn, sorted(missing), cname, node_src(t.slice, 50)))
     return r
 
 
@@ -618,3 +625,294 @@ def _ctx_reuse(fn):
             if f[0] == 'BAD':
                 bad.add((f[1], f[2]))
     return bad
+
+
+# ------------------------------------------------------------------------------------------------- D3p: projections in memo keys
+# A memo is sound only if its key determines the memoised value.  D3g asks that every parameter the value is computed from
+# occurs in the key at all; D3p looks at HOW it occurs: a parameter that enters the key only through projections (p.attr,
+# p.method(), len(p), type(p), bool(p), p.keys() ...) is identified by those projections only, so
+# everything the value reads of p must be one of them.
+_WHOLE_VIEWS = {'items', 'values', 'copy', 'iteritems', 'itervalues', '__iter__'}      # p.items() sees all of a mapping
+_KEY_VIEWS = {'keys', 'iterkeys'}
+_LOSSY_BUILTINS = {'len', 'min', 'max', 'sum', 'any', 'all'}                              # f(p) that identify p only partially
+_LOSSY_PATH = {'basename', 'dirname', 'splitext', 'split'}                                   # os.path.f(p)
+_ITER_BUILTINS = {'sorted', 'list', 'tuple', 'set', 'frozenset', 'iter', 'reversed'}
+
+
+def _parents(root):
+    par = {}
+    for n in ast.walk(root):
+        for c in ast.iter_child_nodes(n):
+            par[c] = n
+    return par
+
+
+def _classify(x, par, is_kwdict, elem_of=None):
+    """how the occurrence `x` (a Name in Load context) of a parameter is used: 'truth' | ('attr', chain) | ('call', name, node) | ('proj', label) | 'whole'"""
+    p = par.get(x)
+    if isinstance(p, ast.Attribute) and p.value is x:
+        chain, top = [p.attr], p
+        while isinstance(par.get(top), ast.Attribute) and par[top].value is top:
+            top = par[top]
+            chain.append(top.attr)
+        call = par.get(top)
+        if isinstance(call, ast.Call) and call.func is top:
+            if len(chain) > 1:
+                return ('attr', tuple(chain[:-1]))
+            mname = chain[0]
+            if mname in _WHOLE_VIEWS:
+                return 'whole'
+            if mname in _KEY_VIEWS:
+                return ('proj', 'keys()')
+            if mname == 'get' and call.args and isinstance(call.args[0], ast.Constant):
+                return ('proj', '[%r]' % (call.args[0].value,))
+            return ('call', mname, call)
+        return ('attr', tuple(chain))
+    if isinstance(p, ast.Subscript) and p.value is x and isinstance(p.slice, ast.Constant):
+        return ('proj', '[%r]' % (p.slice.value,))
+    if isinstance(p, (ast.IfExp, ast.If, ast.While)) and p.test is x:
+        return 'truth'
+    if isinstance(p, ast.UnaryOp) and isinstance(p.op, ast.Not):
+        return 'truth'
+    if isinstance(p, ast.BoolOp) and p.values[-1] is not x:
+        return 'truth'
+    if isinstance(p, ast.BoolOp) and isinstance(par.get(p), (ast.If, ast.While, ast.IfExp)) and par[p].test is p:
+        return 'truth'
+    if isinstance(p, ast.Compare) and len(p.ops) == 1 and isinstance(p.ops[0], (ast.Is, ast.IsNot, ast.Eq, ast.NotEq)):
+        other = p.comparators[0] if p.left is x else p.left
+        if isinstance(other, ast.Constant) and other.value is None:
+            return 'truth'
+    if isinstance(p, ast.Call) and isinstance(p.func, ast.Name) and x in p.args:
+        f = p.func.id
+        first = p.args[0] is x
+        if f == 'bool' and first:
+            return 'truth'
+        if f in _LOSSY_BUILTINS and first:
+            return ('proj', f + '()')
+        if f in ('type', 'isinstance', 'issubclass') and first:
+            return ('proj', 'type()')
+        if f == 'getattr' and first and len(p.args) >= 2 and isinstance(p.args[1], ast.Constant) and isinstance(p.args[1].value, str):
+            return ('attr', (p.args[1].value,))
+        if f == 'hasattr' and first and len(p.args) == 2 and isinstance(p.args[1], ast.Constant):
+            return ('proj', 'hasattr %r' % (p.args[1].value,))
+        if is_kwdict and f in _ITER_BUILTINS and first:
+            return ('proj', 'keys()')
+    if isinstance(p, ast.Call) and isinstance(p.func, ast.Attribute) and p.func.attr in _LOSSY_PATH and p.args and p.args[0] is x:
+        return ('proj', p.func.attr + '()')
+    if isinstance(p, ast.comprehension) and p.iter is x:
+        if is_kwdict:
+            return ('proj', 'keys()')
+        return 'whole'
+    return 'whole'
+
+
+def _method_reads(ix, mname, depth=0, stack=()):
+    """first-level attributes of `self` that any compiler method called `mname` reads (through self.helper() calls as well); None = not resolvable;
+    '*' in the result = `self` escapes as a whole"""
+    cands = []
+    for m in _compiler_modules(ix):
+        for c in ix._all_classes(m):
+            f = c.methods.get(mname)
+            if f is not None:
+                cands.append((c, f))
+    if not cands or len(cands) > 12:
+        return None
+    out = set()
+    for c, f in cands:
+        if not f.args.args:
+            return None
+        if any(isinstance(d, ast.Name) and d.id in ('staticmethod', 'classmethod') for d in f.decorator_list):
+            continue
+        sn = f.args.args[0].arg
+        par = _parents(f)
+        for x in ast.walk(f):
+            if not (isinstance(x, ast.Name) and x.id == sn and isinstance(x.ctx, ast.Load)):
+                continue
+            k = _classify(x, par, False)
+            if k == 'truth':
+                continue
+            if isinstance(k, tuple) and k[0] == 'attr':
+                out.add(k[1][0])
+            elif isinstance(k, tuple) and k[0] == 'call':
+                if k[1] in stack or k[1] == mname:
+                    continue
+                sub = _method_reads(ix, k[1], depth + 1, stack + (mname,)) if depth < 3 else None
+                if sub is None:
+                    out.add('*')
+                else:
+                    out |= sub
+            elif isinstance(k, tuple) and k[0] == 'proj':
+                out.add(k[1])
+            else:
+                out.add('*')
+    return out
+
+
+def _key_and_value_exprs(fn, n, t, params):
+    """(expressions the key is built from, expressions the stored value is computed from): the store's own operands plus the right-hand sides of the
+    local assignments they are built from (flow-insensitive) and the tests that select between such assignments"""
+    assigns = {}
+    tests = {}
+    for a in walk_no_nested(fn):
+        if isinstance(a, ast.Assign):
+            for tg in a.targets:
+                for y in ast.walk(tg):
+                    if isinstance(y, ast.Name) and isinstance(y.ctx, ast.Store):
+                        assigns.setdefault(y.id, []).append(a.value)
+                    elif isinstance(y, ast.Subscript) and isinstance(y.ctx, ast.Store) and isinstance(y.value, ast.Name):
+                        assigns.setdefault(y.value.id, []).append(a.value)
+        elif isinstance(a, ast.AugAssign) and isinstance(a.target, ast.Name):
+            assigns.setdefault(a.target.id, []).append(a.value)
+        elif isinstance(a, (ast.For, ast.comprehension)):
+            for y in ast.walk(a.target):
+                if isinstance(y, ast.Name):
+                    assigns.setdefault(y.id, []).append(a.iter)
+        elif isinstance(a, ast.If):
+            for b in a.body + a.orelse:
+                for y in ast.walk(b):
+                    if isinstance(y, ast.Assign):
+                        for tg in y.targets:
+                            if isinstance(tg, ast.Name):
+                                tests.setdefault(tg.id, []).append(a.test)
+
+    def close(roots):
+        exprs, seen, todo = list(roots), set(), list(roots)
+        while todo:
+            e = todo.pop()
+            for y in ast.walk(e):
+                if isinstance(y, ast.Name) and isinstance(y.ctx, ast.Load) and y.id not in seen:
+                    seen.add(y.id)
+                    for v in assigns.get(y.id, []) + tests.get(y.id, []):
+                        # a parameter re-bound to a container of itself (`components = tuple(components)`) is the same value
+                        if y.id in params and isinstance(v, ast.Call) and isinstance(v.func, ast.Name) and v.func.id in ('tuple', 'list', 'frozenset') \
+                                and len(v.args) == 1 and isinstance(v.args[0], ast.Name) and v.args[0].id == y.id:
+                            continue
+                        exprs.append(v)
+                        todo.append(v)
+        return exprs
+    return close([t.slice]), close([n.value])
+
+
+def _uses(exprs, p, is_kwdict):
+    out = []
+    for e in exprs:
+        root = ast.Expression(body=e) if not isinstance(e, ast.Expression) else e
+        par = _parents(root)
+        for x in ast.walk(e):
+            if isinstance(x, ast.Name) and x.id == p and isinstance(x.ctx, ast.Load):
+                out.append((_classify(x, par, is_kwdict), x))
+    return out
+
+
+def _show_use(u):
+    if u == 'truth':
+        return 'its truth value'
+    if u == 'whole':
+        return 'the object itself'
+    if u[0] == 'attr':
+        return '.' + '.'.join(u[1])
+    if u[0] == 'call':
+        return '.%s()' % u[1]
+    return u[1]
+
+
+def memo_projection_findings(ix, m, qn, fn, n, t, params, relevant):
+    """[(param, key projections, offending value use, detail)] and the list of (param, kind) obligations looked at"""
+    kexprs, vexprs = _key_and_value_exprs(fn, n, t, params)
+    findings, looked, infos = [], [], []
+    kwd = fn.args.kwarg.arg if fn.args.kwarg else None
+    for p in sorted(relevant):
+        ku = [u for u, _ in _uses(kexprs, p, p == kwd)]
+        if not ku:
+            looked.append((p, 'indirect'))
+            continue
+        if 'whole' in ku:
+            looked.append((p, 'whole'))
+            continue
+        looked.append((p, 'projected'))
+        kattrs = {u[1] for u in ku if isinstance(u, tuple) and u[0] == 'attr'}
+        kcalls = {u[1] for u in ku if isinstance(u, tuple) and u[0] == 'call'}
+        kproj = {u[1] for u in ku if isinstance(u, tuple) and u[0] == 'proj'}
+        shown = sorted({_show_use(u) for u in ku if u != 'truth'}) or ['its truth value']
+        for u, x in _uses(vexprs, p, p == kwd):
+            bad = None
+            if u == 'truth':
+                continue
+            if u == 'whole':
+                bad = 'uses %r as a whole (%s)' % (p, node_src(_stmt_of(x, vexprs), 60))
+            elif u[0] == 'attr':
+                if not any(u[1][:len(k)] == k for k in kattrs):
+                    bad = 'reads %s.%s' % (p, '.'.join(u[1]))
+            elif u[0] == 'proj':
+                if u[1] not in kproj:
+                    bad = 'reads %s of %r' % (u[1], p)
+            elif u[0] == 'call':
+                if u[1] in kcalls:
+                    continue
+                reads = _method_reads(ix, u[1])
+                if reads is None:
+                    infos.append('%s.%s: method %s.%s() of a memo parameter could not be resolved; its reads are not compared with the key' % (m.short, qn, p, u[1]))
+                    continue
+                missing = sorted(a for a in reads if a not in {k[0] for k in kattrs} and a not in kproj)
+                if missing:
+                    bad = 'calls %s.%s(), which reads %s' % (p, u[1], ', '.join('the whole object' if a == '*' else 'self.' + a for a in missing))
+            if bad:
+                findings.append((p, shown, bad))
+                break
+    return findings, looked, infos
+
+
+def _stmt_of(x, exprs):
+    for e in exprs:
+        if any(y is x for y in ast.walk(e)):
+            return e
+    return x
+
+
+_D3P_PC = '''
+_type_identifier_cache = {}
+def type_identifier_from_declaration(decl, scope=None):
+    key = (decl, scope.name if scope else None)
+    safe = _type_identifier_cache.get(key)
+    if safe is None:
+        safe = decl
+        if scope:
+            safe = scope.mangle(prefix="", name=safe)
+        _type_identifier_cache[key] = safe
+    return safe
+'''
+
+
+def rule_D3p(ctx):
+    ix = ctx.index
+    r = Rule('D3p', 'a parameter that enters a memo key only through projections (an attribute, a method result, len/type/truth, the keys of a mapping) '
+             'is read by the memoised value only through those projections', floor=16)
+    for m, qn, fn, n, t, cname, implicit, deps, params, dflt_caches in _memo_sites(ix):
+        used = set()
+        for x in ast.walk(n.value):
+            if isinstance(x, ast.Name):
+                used |= deps.get(x.id, set())
+        relevant = (used & set(params)) - dflt_caches - implicit
+        findings, looked, infos = memo_projection_findings(ix, m, qn, fn, n, t, params, relevant)
+        for msg in infos:
+            r.info(msg)
+        for p, kind in looked:
+            key = '%s.%s:%s:%s' % (m.short, qn, cname, p)
+            r.inst(key, sample='%s: parameter %s enters the key (%s) %s' % (key, p, node_src(t.slice, 40), {'whole': 'as a whole', 'indirect': 'through other values only',
+                                                                                                         'projected': 'through projections only'}[kind]), nontrivial=(kind == 'projected'))
+        for p, shown, bad in findings:
+            r.violate('%s.%s:%s:projection:%s' % (m.short, qn, cname, p), m.rel, n.lineno,
+                      '%s memoises a value in %s whose key identifies parameter %r only by %s, but the value %s: two requests that agree in the key and differ there '
+                      '(like-named scopes of two modules compiled in one process, two mappings with the same keys) share one memo slot, so the output depends on what was compiled before'
+                      % (qn, cname, p, ', '.join(shown), bad))
+    # embedded positive example (the key names the scope by .name, the value asks the scope to mangle)
+    tree = ast.parse(_D3P_PC)
+    fn = tree.body[1]
+    deps, params = _closure(fn)
+    st = [a for a in ast.walk(fn) if isinstance(a, ast.Assign) and isinstance(a.targets[0], ast.Subscript)][0]
+
+    class _M:
+        short = 'pc'
+    f2, _, _ = memo_projection_findings(ix, _M, 'pc', fn, st, st.targets[0], params, {'decl', 'scope'})
+    r.positive_control([p for p, _, _ in f2] == ['scope'], 'memo keyed by scope.name while the value calls scope.mangle()')
+    return r
